@@ -1,7 +1,8 @@
 (* C03 -- unmount removes all of a layer's mounts, deepest first, and nothing else: the model's
    own step satisfies the property predicate.  Statements only. *)
 From LC Require Import Lib.Bytes Model.MountInfo Model.FsTree Model.Kernel Model.Layers
-  Proofs.KernelP Proofs.KernelInvP Proofs.ForestP Proofs.C03P Proofs.C03AllP Cases.LC Cases.C03.
+  Proofs.KernelP Proofs.KernelInvP Proofs.ForestP Proofs.UmountAllP Proofs.C03P Proofs.C03AllP Proofs.BuildPathP
+  Cases.LC Cases.C03.
 Import LC LCS.
 
 (* (a) umount with neither a layer nor -all fails, changes nothing, issues no call *)
@@ -90,3 +91,12 @@ Theorem C03_kernel_inv_mount : forall fs ks src tgt fstype flags data ks',
   KernelInvP.kinv (ks_tab ks').
 Proof. exact KernelInvP.kmount_preserves. Qed.
 Print Assumptions C03_kernel_inv_mount.
+
+(* where the build-root hypotheses come from: LAYERS clean and absolute, the build-root setting a
+   non-empty relative path of plain components; then every build root is
+   "/" ++ join "/" (components of LAYERS ++ [name] ++ components of the setting) *)
+Theorem C03_sane_configuration : forall c, BuildPathP.cfg_sane c = true -> forall f,
+  nodup_paths (map l_name (read_layer_files c f)) = true ->
+  wf_layers c (read_layer_files c f) = true /\ UmountAllP.roots_apart c (read_layer_files c f) = true.
+Proof. exact BuildPathP.sane_layers. Qed.
+Print Assumptions C03_sane_configuration.
